@@ -7,7 +7,7 @@ From Coq Require Import String.
 From Coq Require Import List Bool Arith NArith ZArith.
 Import ListNotations.
 Require Import Words Str Rx RxFacts TextModel TextProofs.
-Require Rx RxLang WordToken.
+Require Rx RxLang WordToken G_rx.
 
 Theorem C10_no_listed_word_survives :
   forall (lc : Words.chr -> Words.chr) (hex : Words.chr -> bool) (P : list Words.chr -> list Words.chr),
@@ -46,8 +46,21 @@ Theorem C10_case_variant_on_ascii_is_equality_up_to_letter_case :
   forall x c : N, (x < 128)%N -> (c < 128)%N -> WordToken.folds_to x c -> lower_ascii x = lower_ascii c.
 Proof. exact WordToken.folds_to_ascii. Qed.
 
+
+(* the model's word alternation against the SOURCE: on a sample word list (mixed case, a hyphen, an underscore, a digit), the AST CPython's parser makes of the
+   pattern text SensitiveWordAnonymizer builds with re.IGNORECASE (regenerated on this run, gen/G_rx.v WORD_SAMPLE_RX) reports exactly what the model's
+   pattern reports, on every line and position: same lower-casing, same order (longest first), same case folding of every letter *)
+Theorem C10_word_pattern_is_what_python_compiles_on_a_sample :
+  forall (s : list Rx.chr) (i : nat) (c : Rx.caps),
+  match word_init WordToken.WORD_SAMPLE [115%N] [] with    (* WORD_SAMPLE = ["ab"; "Cde"; "k-s_9"], salt "s" *)
+  | Done a => Rx.ms s (w_regex a) i c = Rx.ms s G_rx.WORD_SAMPLE_RX i c
+  | Raised _ => False
+  end.
+Proof. exact WordToken.word_template_is_what_python_compiles_on_a_sample. Qed.
+
 Print Assumptions C10_no_listed_word_survives.
 Print Assumptions C10_reserved_token_untouched.
 Print Assumptions C10_reserved_secret_untouched.
 Print Assumptions C10_word_pattern_matches_only_case_variants_of_listed_words.
 Print Assumptions C10_case_variant_on_ascii_is_equality_up_to_letter_case.
+Print Assumptions C10_word_pattern_is_what_python_compiles_on_a_sample.
